@@ -18,7 +18,8 @@ EXPLANATION = (
     "create-if-absent (etag=None) and a CAS conflict becomes TableExistsError; (R3) Table.__init__ initialises only when "
     "refresh() is None, and _initialize_table tolerates TableExistsError only; (R4) def-use: the schema argument flows from "
     "create_table through Table.__init__ into TableMetadata.schemas / current_schema_id; (R5) a schema-less append with no "
-    "persisted schema raises; (R6) no fail-open 'table absent' answer (C10.R4).")
+    "persisted schema raises; (R6) no fail-open 'table absent' answer (C10.R4)."
+    " Also: (R7) the pointer is written after the metadata file, by the two sanctioned writers only; (R8) recovery's listing is complete.")
 NOT_DECIDED = "the interleavings; that every caller ends on the same table at run time"
 
 MM = "metadata_manager.MetadataManager"
